@@ -105,7 +105,7 @@ pub fn run(opts: &Opts) -> i32 {
                     retire = After::RetireThread;
                     break;
                 }
-                Run::Livelock => {
+                Run::Livelock(_tail) => {
                     rep.violation(Violation { signature: format!("{}: live-lock", role.name()), what: "step budget exhausted".into(), replay: json!({"script": format!("{script:?}")}) });
                     retire = After::RetireThread;
                     break;
@@ -164,7 +164,7 @@ pub fn run(opts: &Opts) -> i32 {
                 }
             }
             Run::Panic(p) => rep.violation(Violation { signature: format!("{}: {}", role.name(), p.signature()), what: format!("panic: {} at {}", p.msg, p.location), replay: json!({"seed": opts.seed, "index": i}) }),
-            Run::Livelock => rep.violation(Violation { signature: format!("{}: live-lock", role.name()), what: "step budget exhausted".into(), replay: json!({"seed": opts.seed, "index": i}) }),
+            Run::Livelock(_tail) => rep.violation(Violation { signature: format!("{}: live-lock", role.name()), what: "step budget exhausted".into(), replay: json!({"seed": opts.seed, "index": i}) }),
             Run::Watchdog => rep.inconclusive("watchdog"),
         }
         r.after()
